@@ -60,7 +60,7 @@ func checkC18(c *Ctx) {
 	r := NewRand(c.Seed*12289 + 18)
 	nseeds, subEvery := 10, 5
 	if !c.Quick() {
-		nseeds, subEvery = 60, 1
+		nseeds, subEvery = 400, 1
 	}
 	fam, ok := cachedGenModule(c, "GenMut", map[string]int{"N": 60, "V": len(mutVocab)}, "edits.ndjson")
 	if !ok {
